@@ -1,4 +1,132 @@
 package main
 
-// runMutants is the thorough-tier self-test hook (see mutants_run.go once built).
+import (
+	"encoding/json"
+	"fmt"
+	"os"
+	"os/exec"
+	"path/filepath"
+	"sort"
+	"strings"
+)
+
+// Thorough-tier self-test of the checker's detection power: a few of the seeded changes recorded
+// under /verif/seeded as "reported by this property's check" are re-applied to a scratch copy of
+// /repo's CURRENT tree (outside /repo and /verif, removed afterwards) and the quick check is run on
+// the copy. The outcome goes into the evidence (coverage.seeded_selftest); it never turns a run on
+// the unchanged tree into a failure: a patch that does not apply any more is recorded as skipped,
+// a seeded change that is no longer reported is recorded as MISSED and printed as a warning.
+type seededResult struct {
+	Name     string   `json:"seeded_change"`
+	Outcome  string   `json:"outcome"` // reported | MISSED | skipped(<why>)
+	Rules    []string `json:"rules_that_fired,omitempty"`
+	Expected []string `json:"rules_recorded,omitempty"`
+}
+
+const seededPerProperty = 2
+
+func runSeededSelfTest(p *Property) []seededResult {
+	if os.Getenv("DGNOSEEDED") != "" {
+		return nil
+	}
+	dirs, _ := filepath.Glob(filepath.Join(verifDir(), "seeded", "*", "meta.json"))
+	sort.Strings(dirs)
+	type cand struct {
+		name  string
+		rules []string
+	}
+	var cands []cand
+	for _, m := range dirs {
+		b, err := os.ReadFile(m)
+		if err != nil {
+			continue
+		}
+		var meta struct {
+			Property   string `json:"property"`
+			DetectedBy *struct {
+				Properties []string `json:"properties"`
+				Rules      []string `json:"rules"`
+			} `json:"detected_by"`
+		}
+		if json.Unmarshal(b, &meta) != nil || meta.DetectedBy == nil {
+			continue
+		}
+		hit := false
+		for _, q := range meta.DetectedBy.Properties {
+			if q == p.ID {
+				hit = true
+			}
+		}
+		if hit {
+			cands = append(cands, cand{filepath.Base(filepath.Dir(m)), meta.DetectedBy.Rules})
+		}
+	}
+	// prefer changes seeded FOR this property, then the others
+	sort.SliceStable(cands, func(i, j int) bool {
+		return strings.HasPrefix(cands[i].name, p.ID) && !strings.HasPrefix(cands[j].name, p.ID)
+	})
+	if len(cands) > seededPerProperty {
+		cands = cands[:seededPerProperty]
+	}
+	self, err := os.Executable()
+	if err != nil {
+		return nil
+	}
+	var out []seededResult
+	for _, c := range cands {
+		res := seededResult{Name: c.name, Expected: c.rules}
+		tmp, err := os.MkdirTemp("", "dgseeded_")
+		if err != nil {
+			res.Outcome = "skipped(no scratch dir)"
+			out = append(out, res)
+			continue
+		}
+		func() {
+			defer os.RemoveAll(tmp)
+			if b, err := exec.Command("rsync", "-a", "--exclude", ".git", repoDir()+"/", tmp+"/").CombinedOutput(); err != nil {
+				res.Outcome = "skipped(copy failed: " + strings.TrimSpace(string(b)) + ")"
+				return
+			}
+			patch := filepath.Join(verifDir(), "seeded", c.name, "patch.diff")
+			cmd := exec.Command("patch", "-p1", "-s", "--no-backup-if-mismatch", "-i", patch)
+			cmd.Dir = tmp
+			if _, err := cmd.CombinedOutput(); err != nil {
+				res.Outcome = "skipped(patch does not apply to the current tree)"
+				return
+			}
+			run := exec.Command(self, p.ID, "quick")
+			run.Env = append(os.Environ(), "DGREPO="+tmp, "DGEVIDENCE="+filepath.Join(tmp, ".ev"), "DGNOSEEDED=1")
+			b, _ := run.CombinedOutput()
+			fired := map[string]bool{}
+			lines := strings.Split(string(b), "\n")
+			for i, l := range lines {
+				if strings.HasPrefix(l, "VIOLATION ") && i > 0 {
+					f := strings.Fields(lines[i-1])
+					if len(f) > 1 && f[0] == "dgcheck:" {
+						fired[f[1]] = true
+					}
+				}
+			}
+			for r := range fired {
+				res.Rules = append(res.Rules, r)
+			}
+			sort.Strings(res.Rules)
+			switch {
+			case len(res.Rules) > 0:
+				res.Outcome = "reported"
+			case strings.Contains(string(b), "BROKEN"):
+				res.Outcome = "skipped(check broken on the changed copy)"
+			default:
+				res.Outcome = "MISSED"
+			}
+		}()
+		if res.Outcome == "MISSED" {
+			fmt.Printf("dgcheck: warning: seeded change %s, recorded as reported by %s, was not reported in this run\n", c.name, p.ID)
+		}
+		out = append(out, res)
+	}
+	return out
+}
+
+// runMutants is kept for the command table; the self-test runs inside checkProperty (thorough tier).
 func runMutants(p *Property) int { return 0 }
